@@ -290,10 +290,13 @@ CHECKS = {
               "generator to have order r. The target group is also judged as the order-r subgroup of Fp12 (Tower.tla): the twelve "
               "coefficients of pairing values e(aG1, bG2) must be the (ab)-th power of e(G1, G2), which must have order r and lie in "
               "the cyclotomic subgroup; Gt +, -, negation, doubling, sums and scalar multiples must be the Fp12 product, conjugate "
-              "and powers; final_exponentiation(f) must be f^(c (p^12 - 1)/r) (c = 3 for the blst engine, 1 for BN254)."),
+              "and powers; final_exponentiation(f) must be f^(c (p^12 - 1)/r) (c = 3 for the blst engine, 1 for BN254). Finally e(P, Q) for points "
+              "given by their coordinates must equal, to that power c, the optimal ate pairing AtePairing.tla writes out from first "
+              "principles (affine Miller loop over the sextic twist, line functions from the untwisting map, the two Frobenius lines "
+              "of BN curves, exponent (p^12 - 1)/r; seeds checked against the group orders)."),
         design_ref="DESIGN.md 4/C13",
         note=("Logarithms are found by search with the library's own Gt operations (themselves judged on coefficients); the Miller "
-              "loop is not re-derived; Gt has no byte encoding in the library; scalars limited to the menus. One open finding (BN254 "
+              "loop's intermediate value is not compared (only the reduced pairing is); Gt has no byte encoding in the library; scalars limited to the menus. One open finding (BN254 "
               "Miller-loop results combine by field addition)."),
         technique="TLA+/TLC model checking of the bilinear dlog model + replay of every explored list into both pairing engines, validated as traces",
     ),
